@@ -1039,6 +1039,63 @@ func ssAttachCase(idx int) (*shpCase, string) {
 	return c, fmt.Sprintf("mark attachment class %d, lookup type %d", cls, typ)
 }
 
+// ---------------------------------------------------------------- family: class 0 in class-based contexts
+//
+// Class-based contexts (format 2, plain and chained) whose rules list CLASS 0 in the backtrack,
+// input (beyond the first glyph) and lookahead sequences: "class 0 … includes all glyphs not
+// assigned to another class", i.e. glyphs absent from the class definition (C) as well as glyphs
+// explicitly mapped to 0 (D); B has class 2.
+var ssClassZeroRules = [][3][]uint16{
+	{{0}, {}, {}}, {{}, {0}, {}}, {{}, {}, {0}}, {{0}, {0}, {}}, {{0}, {}, {0}}, {{}, {0}, {0}}, {{0}, {0}, {0}},
+	{{2}, {0}, {0, 2}}, {{0, 0}, {}, {2, 0}}, {{}, {0, 0}, {}}, {{}, {2, 0}, {}},
+}
+
+const ssClassZeroCount = 11 * 2
+
+func ssClassZeroCase(idx int) (*shpCase, string) {
+	rule := ssClassZeroRules[idx%11]
+	idx /= 11
+	chained := idx%2 == 1
+	cd := classdef.Table{ssA: 1, ssB: 2, ssD: 0}
+	acts := []gtab.SeqLookup{{SequenceIndex: 0, LookupListIndex: 1}}
+	back, input, look := rule[0], rule[1], rule[2]
+	var st gtab.Subtable
+	tp := uint16(5)
+	if chained {
+		tp = 6
+		st = &gtab.ChainedSeqContext2{Cov: coverage.Table{ssA: 0}, Backtrack: cd, Input: cd, Lookahead: cd,
+			Rules: [][]*gtab.ChainedClassSeqRule{{}, {{Backtrack: back, Input: input, Lookahead: look, Actions: acts}}}}
+	} else {
+		back, look = nil, nil
+		st = &gtab.SeqContext2{Cov: coverage.Table{ssA: 0}, Input: cd, Rules: [][]*gtab.ClassSeqRule{{}, {{Input: input, Actions: acts}}}}
+	}
+	ll := gtab.LookupList{
+		ssLookup(tp, 0, 0, st),
+		ssLookup(1, 0, 0, &gtab.Gsub1_2{Cov: coverage.Table{ssA: 0}, SubstituteGlyphIDs: []glyph.ID{ssL}}),
+	}
+	c := &shpCase{ll: ll, gd: ssGdef(), lookups: []gtab.LookupIndex{0}}
+	alpha := []glyph.ID{ssB, ssC, ssD}
+	for _, pre := range ssWordsLen(alpha, len(back)) {
+		for _, mid := range ssWordsLen(alpha, len(input)) {
+			for _, suf := range ssWordsLen(alpha, len(look)) {
+				seq := append(append(append(append([]glyph.ID{}, pre...), ssA), mid...), suf...)
+				c.hist = append(c.hist, ssText(seq))
+			}
+		}
+	}
+	return c, fmt.Sprintf("chained=%v backtrack %v input %v lookahead %v", chained, back, input, look)
+}
+
+func ssWordsLen(alpha []glyph.ID, n int) [][]glyph.ID {
+	var out [][]glyph.ID
+	for _, w := range ssWords(alpha, n) {
+		if len(w) == n {
+			out = append(out, w)
+		}
+	}
+	return out
+}
+
 // positioning: value records, pairs (both formats), mark-to-base, mark-to-mark on
 // base + marks clusters with advances.
 func (g *ssGen) positioning() *shpCase {
@@ -1254,6 +1311,11 @@ func areaShapeSpec(c *Ctx) {
 		sc, what := ssEdgeCase(i)
 		c.Stat("obligation: ignored glyphs at the edges", what)
 		emit(sc, "edge family")
+	}
+	for i := 0; i < ssClassZeroCount; i++ {
+		sc, what := ssClassZeroCase(i)
+		c.Stat("obligation: class 0 in class-based contexts", what)
+		emit(sc, "class zero family")
 	}
 	for i := 0; i < ssBudgetCount; i++ {
 		sc, what := ssBudgetCase(i)
